@@ -438,6 +438,21 @@ def gen_nested_case(r):
         i = r.randrange(len(lines) + 1)
         lines.insert(i, rws(r, 4, True) + r.choice([b"fooBar 1", b"widthh 0.5", b"x", b"atomNumbers_ 1 2",
                                                     b"fooBlock {\n  width 1\n}", b"fooBlock { width 1 }", b"group9 {\n  atomNumbers 1\n  fooBar 2\n}"]))
+    elif m < 0.89:
+        # text that is neither keyword nor value: after a closing brace, between a block keyword and its brace
+        idx_close = [i for i, l in enumerate(lines) if l.rstrip().endswith(b"}")]
+        idx_open = [i for i, l in enumerate(lines) if l.rstrip().endswith(b"{")]
+        if r.random() < 0.5 and idx_close:
+            tag = "junk-after-brace"
+            i = r.choice(idx_close)
+            lines[i] = lines[i].rstrip() + b" " + r.choice([b"junk", b"x 1", b"0.5", b"fooBar"])
+        elif idx_open:
+            tag = "junk-before-brace"
+            i = r.choice(idx_open)
+            l = lines[i].rstrip()
+            lines[i] = l[:-1].rstrip() + b" " + r.choice([b"junk", b"foo", b"1"]) + b" {"
+        else:
+            tag = "valid"
     elif m < 0.93:
         tag = "brace"
         idx = [i for i, l in enumerate(lines) if b"{" in l or b"}" in l]
